@@ -215,6 +215,31 @@ def rowSeq (ord row : Nat) : Nat → List (Nat × Nat)
   | 0 => []
   | n + 1 => (ord, row) :: rowSeq ord (row + 1) n
 
+/-- the scan-style records of consecutive rows `(ord,row), (ord,row+1), …` with effects `fxs`,
+starting with speed `sp`, tempo `b` at exact time `t` -/
+def recSeq (ord : Nat) : Nat → List Fx → Nat → Nat → Nat → List RowRec
+  | _, [], _, _, _ => []
+  | row, fx :: tl, sp, b, t =>
+    { ord := ord, row := row, speed := fxSpeed fx sp, bpm := fxBpm fx b, delay := fx.delayOf, t0 := t } ::
+      recSeq ord (row + 1) tl (fxSpeed fx sp) (fxBpm fx b) (t + rowFrames fx sp * tick (fxBpm fx b))
+
+theorem visitStep_trace_full (ord row : Nat) (fx : Fx) (st : ScanSt) (hw : fx.WF) :
+    (visitStep ord row fx st).trace =
+      { ord := ord, row := row, speed := fxSpeed fx st.speed, bpm := fxBpm fx st.bpm, delay := fx.delayOf,
+        t0 := st.rowStart } :: st.trace := by
+  cases fx with
+  | none => simp [visitStep, applyFx, fxSpeed, fxBpm]
+  | jump j => simp [visitStep, applyFx, fxSpeed, fxBpm]
+  | delay d => simp [visitStep, applyFx, fxSpeed, fxBpm]
+  | speed s =>
+    simp only [Fx.WF] at hw
+    have hs : s ≠ 0 := by omega
+    simp [visitStep, applyFx, fxSpeed, fxBpm, hs]
+  | tempo t =>
+    simp only [Fx.WF] at hw
+    have ht : ¬ t < 20 := by omega
+    simp [visitStep, applyFx, fxSpeed, fxBpm, ht]
+
 /-- what the row loop leaves behind after a jump-free stretch of fresh rows -/
 structure RowsDone (ord row : Nat) (fxs : List Fx) (st st' : ScanSt) : Prop where
   rowStart : st'.rowStart = st.rowStart + rowsTime fxs st.speed st.bpm
@@ -228,6 +253,7 @@ structure RowsDone (ord row : Nat) (fxs : List Fx) (st st' : ScanSt) : Prop wher
   other : ∀ o r, (o ≠ ord ∨ r < row ∨ row + fxs.length ≤ r) → cntAt st'.cnt o r = cntAt st.cnt o r
   visited : ∀ r, row ≤ r → r < row + fxs.length → cntAt st'.cnt ord r = 1
   trace : st'.trace.map posOf = (rowSeq ord row fxs.length).reverse ++ st.trace.map posOf
+  recs : st'.trace = (recSeq ord row fxs st.speed st.bpm st.rowStart).reverse ++ st.trace
   valid : fxs ≠ [] → st'.anyValid = true ∧ st'.osv = 0
   same : fxs = [] → st' = st
 
@@ -248,7 +274,7 @@ theorem scanRows_nojump_app (ord : Nat) (rest : List Fx) : ∀ (fxs : List Fx) (
   | nil =>
     intro row st _ _ _ _ _
     refine ⟨st, by simp, ?_⟩
-    constructor <;> simp [rowsTime, rowsSpeed, rowsBpm, rowSeq]
+    constructor <;> simp [rowsTime, rowsSpeed, rowsBpm, rowSeq, recSeq]
     intro r h1 h2; omega
   | cons fx tl ih =>
     intro row st hfx hfresh hb hlen hrl
@@ -296,6 +322,8 @@ theorem scanRows_nojump_app (ord : Nat) (rest : List Fx) : ∀ (fxs : List Fx) (
       · exact hd.visited r (by omega) (by omega)
     · rw [hd.trace, visitStep_trace]
       simp [rowSeq]
+    · rw [hd.recs, visitStep_trace_full _ _ _ _ hfx0.2, hsp', hbp', hrs']
+      simp [recSeq]
     · intro _
       by_cases hr : tl = []
       · subst hr
